@@ -496,7 +496,7 @@ class ObjectType(Type):
         self.__initialize__()
 
         if value is None:
-            return None
+            raise ValueError(f"None is not a valid value for {self.basetype}")
 
         if not isinstance(value, Config):
             raise ValueError(f"{value} is not an experimaestro type or task")
